@@ -139,6 +139,15 @@ func (f *simFS) NewWriter(_ context.Context, name string, metadata map[string]st
 		f.r.Fault("fs-create-error")
 		return nil, sim.ErrInjected
 	}
+	if c.fault.kind == "disk-full" && c.fault.file == idx && !c.fired && f.inner != nil {
+		// the real local file store on a full disk: the file can be created (here: a link to /dev/full), every
+		// write that reaches the operating system fails with ENOSPC
+		c.fired = true
+		f.r.Fault("fs-disk-full")
+		full := filepath.Join(f.root, filepath.FromSlash(name))
+		os.MkdirAll(filepath.Dir(full), 0o777)
+		os.Symlink("/dev/full", full)
+	}
 	sf := &simFile{name: name, open: true}
 	if f.personality == fsLocalDisk {
 		sf.visible = true
@@ -254,6 +263,10 @@ func (f *simFS) stored() map[string][]byte {
 		filepath.Walk(f.root, func(p string, info os.FileInfo, err error) error {
 			if err == nil && !info.IsDir() {
 				rel, _ := filepath.Rel(f.root, p)
+				if !info.Mode().IsRegular() {
+					out[filepath.ToSlash(rel)] = []byte("<not a regular file: " + info.Mode().String() + ">")
+					return nil
+				}
 				b, _ := os.ReadFile(p)
 				out[filepath.ToSlash(rel)] = b
 			}
